@@ -35,11 +35,19 @@ func (l linearInterpolator) interpolate(frac float64) Point {
 	p0 := l.seq.Get(idx + 0)
 	p1 := l.seq.Get(idx + 1)
 
+	segLength := p0.XY.distanceTo(p1.XY)
+	if segLength == 0 {
+		// The segment is degenerate (repeated point). This only happens at
+		// the very start of the sequence, and dividing by its zero length
+		// would result in NaN coordinates.
+		return p0.AsPoint()
+	}
+
 	partial := frac * l.total
 	if idx-1 >= 0 {
 		partial -= l.cumulative[idx-1]
 	}
-	partial /= p0.XY.distanceTo(p1.XY)
+	partial /= segLength
 
 	return interpolateCoords(p0, p1, partial).AsPoint()
 }
